@@ -380,10 +380,10 @@ func (vc *VC) strLess(x, y string) string {
 	vc.decl("f:strless", "(declare-fun strless (Str Str) Bool)")
 	if !vc.declared["ax:strless"] {
 		vc.declared["ax:strless"] = true
-		if !vc.isBV() {
-			// definition by first difference
-			vc.assume("(forall ((a Str) (b Str)) (! (= (strless a b) (exists ((k Int)) (and (<= 0 k) (<= k (slen a)) (<= k (slen b)) (forall ((j Int)) (=> (and (<= 0 j) (< j k)) (= (sat a j) (sat b j)))) (or (and (= k (slen a)) (< k (slen b))) (and (< k (slen a)) (< k (slen b)) (< (sat a k) (sat b k))))))) :pattern ((strless a b))))")
-		}
+		// bytewise order kept uninterpreted (the first-difference definition makes the
+		// solvers diverge); only irreflexivity is supplied
+		vc.assume("(forall ((a Str)) (! (not (strless a a)) :pattern ((strless a a))))")
+		vc.trust("bytewise string order `<` is an uninterpreted irreflexive relation (same symbol in code and contracts)")
 	}
 	return fmt.Sprintf("(strless %s %s)", x, y)
 }
